@@ -186,7 +186,10 @@ pub fn execute_checked(
     };
     let mut trace: Vec<usize> = Vec::new();
     let mut done = false;
-    let lim = Limits { horizon };
+    let lim = Limits {
+        horizon,
+        require_callee_convention: true,
+    };
     let node_of = |idx: usize| -> &Rc<CfgNode> { &b.inst_nodes[idx] };
     let mut cb = |ev: &Event, m: &Machine, frames: &[Frame]| {
         if done {
